@@ -41,7 +41,7 @@ MIN_THEOREMS = 38
 US = D.US
 DAY = 86400 * US
 YMAX = Z.YMAX_QUICK
-RULE = ("differential run against the native classes: for every zone, its gaps/overlaps (quick: 3 per zone, thorough: 24 per zone, 6x for the special zones) x wall "
+RULE = ("differential run against the native classes (classmethods taking an instant also compared on fold and utcoffset): for every zone, its gaps/overlaps (quick: 3 per zone, thorough: 24 per zone, 6x for the special zones) x wall "
         "positions {lo-1us, lo, mid, hi-1us, hi} x fold x {unary accessors, astimezone to same/UTC/other zone/fixed/native tzinfo, "
         "pairs (two passes of one wall time, wall order != instant order, across the transition, other zone, distinct tzinfo "
         "object of the same zone) for the six comparisons, hash and subtraction, replace}; random ordinary values incl. naive and "
@@ -583,7 +583,18 @@ def _o_types(op):
                 a, b = tuple(getattr(r, x) for x in fl), tuple(getattr(nr, x) for x in fl)
                 if a != b:
                     return f"{nm}: fields {a} != native {b}"
+                if typ is DT and nm in _SAME_MOMENT:
+                    # the constructors that take an instant (or carry no occurrence information): same occurrence and offset as native
+                    # (pendulum's fromtimestamp()/utcfromtimestamp() without tz return aware values by design: offset compared only
+                    # where the native result is aware)
+                    a, b = (r.fold, r.utcoffset() if nr.utcoffset() is not None else None), (nr.fold, nr.utcoffset())
+                    if a != b:
+                        return f"{nm}: (fold, utcoffset) {a} != native {b}"
     return None
+
+
+_SAME_MOMENT = ("fromtimestamp", "fromtimestamp(tz)", "utcfromtimestamp", "astimezone(utc)", "fromordinal", "strptime",
+                "fromisocalendar")
 
 
 def _raises(f):
